@@ -178,6 +178,11 @@ def run(tier, seed):
         "violates %s as expected" % inv3 if not ok3 else "NOT detected"))
     if ok3:
         bad += 1
+    ok4, st4, inv4 = core.mc_impl(5, True, "self-impl-rollback", rollback=False)
+    print("selftest GfaImpl: line refused in the middle of connect without roll-back %s" % (
+        "violates %s as expected" % inv4 if not ok4 else "NOT detected"))
+    if ok4:
+        bad += 1
     for f in sorted(glob.glob(os.path.join(os.path.dirname(__file__), "fam_*.py"))):
         m = importlib.import_module("harness." + os.path.basename(f)[:-3])
         if hasattr(m, "selftest"):
